@@ -1,6 +1,6 @@
 (* Props/C04.v — property C04: HSMS frames are bit-exact and reassembled independently of TCP segmentation. *)
 From SG Require Import Base.Prelude Base.Kinds Gen.ProtoConsts Spec.E4E37Frames Model.Secs2 Model.Frames Model.HsmsRx.
-From SG Require Import Proofs.FramesProofs Proofs.RxProofs Base.PyRt Gen.PyHsmsHdr Proofs.PyHsmsHdrProofs Base.PyRt Gen.RxLoop Proofs.RxLoopProofs.
+From SG Require Import Proofs.FramesProofs Proofs.RxProofs Base.PyRt Gen.PyHsmsHdr Proofs.PyHsmsHdrProofs Base.PyRt Gen.RxLoop Proofs.RxLoopProofs Gen.Dispatcher Model.DispatchLoop Proofs.DispatchLoopProofs.
 From Coq Require Import Lia.
 Open Scope N_scope.
 
@@ -91,3 +91,12 @@ Example C04_receive_loop_sample :
   = [Delivered {| h_system := 7; h_session := 0; h_stream := 1; h_function := 1; h_w := true; h_ptype := 0; h_stype := 0 |} []; Dropped;
      Delivered {| h_system := 7; h_session := 0; h_stream := 1; h_function := 1; h_w := true; h_ptype := 0; h_stype := 0 |} []]%Z.
 Proof. vm_compute. reflexivity. Qed.
+
+(* "none lost" behind the framing: a frame that was cut out of the stream is queued for the dispatcher thread (put, then set the trigger).
+   With the dispatcher loop as the source writes it (Gen/Dispatcher.v, regenerated: the trigger is cleared BEFORE the queue is drained) no
+   interleaving of queueing and dispatcher steps leaves a frame in the queue with the dispatcher asleep and nobody about to wake it, and
+   every queued frame is delivered or still queued (the same theorems as C06's, over the same regenerated flag). *)
+Theorem C04_queued_frames_are_dispatched : forall tr,
+  stuck (drun dispatcher_clears_before_drain d0 tr) = false.
+Proof. exact no_lost_wakeup. Qed.
+Print Assumptions C04_queued_frames_are_dispatched.
